@@ -19,16 +19,22 @@
 (*   filter headers are named by the same numbers                          *)
 (*   NF = nothing readable there, G = something unknown, ERR = call failed *)
 (*                                                                         *)
-(* cfg = [s, n, bs, hB, hF, x, kind, fy, fk]                               *)
+(* cfg = [s, n, bs, hB, hF, x, kind, fy, fk, ck, cx]                       *)
 (*   s, n   start height and number of headers of both files               *)
 (*   bs     WriteBatchSizePerRegion                                        *)
 (*   hB,hF  tip heights of the block / filter header store before          *)
 (*   kind   "none" | "fork" (valid other branch from height x on) |        *)
 (*          "pow" | "bits" | "time" | "link" (header x breaks that rule,   *)
 (*          later headers are valid children)                              *)
-(*   fy     height at which the filter file alone differs (NF: none)       *)
+(*   fy     height FROM which the filter file alone differs (NF: none); a   *)
+(*          filter header commits to its predecessor, so a genuine other   *)
+(*          filter-header chain differs at every height from there on      *)
 (*   fk     file-level damage: "none" | "magic" | "magicF" | "truncB" |    *)
 (*          "truncF" | "emptyB" | "shortF" | "startF"                      *)
+(*   ck     height of a hard-coded filter-header checkpoint of the target  *)
+(*          network whose value is the reference filter header ck (NF: no  *)
+(*          checkpoint)                                                    *)
+(*   cx     1: the context handed to Import is already cancelled           *)
 (* obs = [up, B |-> [tip |-> <<id,height>>, byH, hh], F |-> [tip, byH]]    *)
 (*   byH[p] = id read by FetchHeaderByHeight(p-1); hh[p] = HeightFromHash  *)
 (*   of that header.                                                       *)
@@ -46,7 +52,7 @@ EndH(c) == c.s + c.n - 1
 FileB(c, h) == IF c.kind = "none" \/ h < c.x THEN h
                ELSE IF h = c.x THEN (IF c.kind = "fork" THEN 100 + h ELSE 200 + h)
                ELSE 100 + h
-FileF(c, h) == IF (c.kind # "none" /\ h >= c.x) \/ h = c.fy THEN 100 + h ELSE h
+FileF(c, h) == IF (c.kind # "none" /\ h >= c.x) \/ (c.fy # NF /\ h >= c.fy) THEN 100 + h ELSE h
 
 \* Ground truth about block headers (how the generator builds them).
 ValidId(id) == id >= 0 /\ (id < 200 \/ id >= 300)
@@ -81,6 +87,19 @@ ChainOK(c, o) ==
        IN  /\ ValidId(id)
            /\ (p = 1 => id = 0)
            /\ (p > 1 /\ id < 300 => ParentOf(c, id) = o.B.byH[p - 1])
+
+\* No stored filter header contradicts the network's filter-header checkpoint
+\* (the only validity rule an import can apply to filter headers).
+CkOK(c, o) == \/ c.ck = NF \/ ~TipOK(o.F) \/ c.ck > o.F.tip[2]
+              \/ c.ck + 1 > Len(o.F.byH) \/ o.F.byH[c.ck + 1] = c.ck
+
+\* "leaves stores equal to the file": at every height of the file both stores
+\* hold the file's header (a file that disagrees with what is stored is a
+\* "mismatch with existing data", which is a failure).
+AgreesWithFile(c, o) ==
+  \A h \in c.s..EndH(c) :
+     /\ h + 1 <= Len(o.B.byH) /\ o.B.byH[h + 1] = FileB(c, h)
+     /\ h + 1 <= Len(o.F.byH) /\ o.F.byH[h + 1] = FileF(c, h)
 
 \* "their earlier contents extended by the file's headers up to the file's
 \* last height", as the complete answer of the read API.
@@ -161,6 +180,10 @@ Viol(a, o, act, a2, o2) ==
         THEN {"SuccessMeansEqual"} ELSE {})
        \cup (IF Usable(a.pre) /\ ChainOK(a.cfg, a.pre) /\ ~ChainOK(a.cfg, o2)
              THEN {"SuccessChainValid"} ELSE {})
+       \cup (IF Usable(a.pre) /\ a.cfg.fk = "none" /\ o2.up = 1 /\ ~AgreesWithFile(a.cfg, o2)
+             THEN {"SuccessAgreesWithFile"} ELSE {})
+       \cup (IF Usable(a.pre) /\ CkOK(a.cfg, a.pre) /\ o2.up = 1 /\ ~CkOK(a.cfg, o2)
+             THEN {"SuccessFilterCheckpoint"} ELSE {})
   ELSE IF act.op = "Return" /\ act.run = 2 /\ a.r1 = "ok" THEN
        (IF o2 # a.mid THEN {"SecondImportNoop"} ELSE {})
   ELSE IF act.op = "Return" /\ act.run = 1 THEN
@@ -169,7 +192,8 @@ Viol(a, o, act, a2, o2) ==
        \cup (IF Readable(a.pre) /\ Readable(o2) /\ o2.F.tip[2] > o2.B.tip[2]
              THEN {"FailureLeavesConsistent"} ELSE {})
        \cup (IF Readable(a.pre) /\ Readable(o2) /\ ChainOK(a.cfg, a.pre)
-                /\ ~(ChainOK(a.cfg, o2) /\ OnlyKnown(a.cfg, a.pre, o2))
+                /\ CkOK(a.cfg, a.pre)
+                /\ ~(ChainOK(a.cfg, o2) /\ OnlyKnown(a.cfg, a.pre, o2) /\ CkOK(a.cfg, o2))
              THEN {"FailureNothingUnvalidated"} ELSE {})
   ELSE IF act.op = "Probe" /\ ~a.crashed THEN
        (IF Readable(a.pre) /\ Readable(o) /\ ~ProbeOK(o, act, o2)
